@@ -288,8 +288,14 @@ func (r *Raft) onSnapshotTaken(t snapTaken) {
 		nowCompact, canCompact := t.meta.index, t.meta.index
 		if r.state == Leader {
 			for _, repl := range r.ldr.repls {
-				if repl.status.matchIndex < nowCompact {
-					nowCompact = repl.status.matchIndex
+				matchIndex := repl.status.matchIndex
+				if matchIndex > 0 && matchIndex < t.meta.index {
+					// replication still reads entry matchIndex through its
+					// current log view, for prevLogTerm of its next request
+					matchIndex--
+				}
+				if matchIndex < nowCompact {
+					nowCompact = matchIndex
 				}
 				if repl.status.noContact.IsZero() && repl.status.matchIndex < canCompact {
 					canCompact = repl.status.matchIndex
